@@ -9,7 +9,7 @@ from __future__ import annotations
 
 from harness.common import ASSUME, FAIL, PASS, check, tape_harness  # noqa: F401  (sets sys.path)
 from harness import oracles as O
-from harness.values import G_DEEP, G_FULL1, G_MEDIUM, G_NESTED, G_NESTED2, G_NESTED4, G_QUICK, G_SMALL, Grammar, build_value, show
+from harness.values import G_DEEP, G_FULL1, G_MEDIUM, G_NESTED, G_NESTED2, G_NESTED4, G_NESTEDX, G_QUICK, G_SMALL, Grammar, build_value, show
 
 from monkeytype.typing import get_type, shrink_types
 
@@ -81,7 +81,7 @@ def make_body(g: Grammar, n: int, oracle: str):
                 perm_i = 5
         else:
             perm_i = 0
-        vals = [build_value(t, g) for t in tapes]
+        vals = [build_value(t, g.for_index(i) if hasattr(g, "for_index") else g) for i, t in enumerate(tapes)]
         tys, merged = _infer(vals, k)
         if oracle == "sound":
             bad = [i for i, v in enumerate(vals) if not O.conforms(v, merged)]
@@ -162,7 +162,7 @@ def tape_len(g) -> int:
     return need(g.depth)
 
 
-GRAMMARS = {"quick": G_QUICK, "small": G_SMALL, "medium": G_MEDIUM, "deep": G_DEEP, "full1": G_FULL1, "nested": G_NESTED, "nested2": G_NESTED2, "nested4": G_NESTED4}
+GRAMMARS = {"quick": G_QUICK, "small": G_SMALL, "medium": G_MEDIUM, "deep": G_DEEP, "full1": G_FULL1, "nested": G_NESTED, "nested2": G_NESTED2, "nested4": G_NESTED4, "nestedx": G_NESTEDX}
 TAPE_PREFIX = ("a", "b", "c")
 
 REGISTRY = {}
@@ -182,9 +182,10 @@ def shards_for(name, prefix_len=3):
     from engine.verdicts import enumerate_prefixes
 
     g, n, _ = REGISTRY[name]
-    prefixes = enumerate_prefixes(lambda t: build_value(t, g), prefix_len)
     shards = [{}]
     for i in range(n):
+        gi = g.for_index(i) if hasattr(g, "for_index") else g
+        prefixes = enumerate_prefixes(lambda t: build_value(t, gi), prefix_len)
         p = TAPE_PREFIX[i]
         shards = [dict(sh, **{f"{p}{j}": v for j, v in enumerate(pre)}) for sh in shards for pre in prefixes]
     return shards
@@ -198,7 +199,7 @@ def describe(name, args):
     for i in range(n):
         p = TAPE_PREFIX[i]
         tape = [args[f"{p}{j}"] for j in range(tape_len(g))]
-        vals.append(build_value(Tape(tape), g))
+        vals.append(build_value(Tape(tape), g.for_index(i) if hasattr(g, "for_index") else g))
     k = args["k"]
     tys, merged = _infer(vals, k)
     return {"values": [show(v) for v in vals], "k": k, "merged_type": O.show_type(merged)}
